@@ -11,6 +11,22 @@
 //!    (`constantArm`, `functionArm`), and that `ModuleBuilder::finalize` starts
 //!    with `finalize_definitions` (`finalizeAtEnd`).
 //! Shapes that are not recognised are extraction failures, never defaults.
+//!
+//! `c14read` → `Generated/C14Read.lean`: what a *read* of a script constant is
+//! lowered to, statement by statement (`Model/TarjanRead` gives the lists their
+//! meaning):
+//!  * `Lowerer::path_value` (src/mir/lower.rs), arm `ValueKind::Constant`:
+//!    `mirReadNoFields` (what `if fields.is_empty() { … }` does) and
+//!    `mirReadFields` (the rest of the arm);
+//!  * `Lowerer::assign` (src/lir/lower.rs), arm `mir::Value::Constant`:
+//!    `lirConstantAssign`, and that `emit_constant_address` emits
+//!    `Instruction::ConstantAddress { to, name }` of the name it is given;
+//!  * the arm `lir::Instruction::ConstantAddress` of the code generator
+//!    (src/codegen/mod.rs): where the pointer comes from, in order
+//!    (`cgConstantAddress`).
+//! Every statement of these arms must be one the translator knows: a statement
+//! that consults or updates anything else (a table of earlier reads, a flag) is
+//! an extraction failure.
 #[allow(unused_imports)]
 use super::{Gen, Target};
 use crate::find;
@@ -19,7 +35,7 @@ use std::collections::HashMap;
 use std::path::Path;
 use syn::visit::Visit;
 
-pub const TARGETS: &[Target] = &[("c14emit", "C14Emit", c14emit as Gen)];
+pub const TARGETS: &[Target] = &[("c14emit", "C14Emit", c14emit as Gen), ("c14read", "C14Read", c14read as Gen)];
 
 fn norm<T: ToTokens>(t: &T) -> String {
     t.to_token_stream().to_string().replace(' ', "")
@@ -240,5 +256,244 @@ fn c14emit(repo: &Path) -> Result<String, String> {
     s.push_str("/-- `codegen` ends in `module.finalize()`, which starts with `finalize_definitions` -/\n");
     s.push_str(&format!("def finalizeAtEnd : Bool := {finalize_at_end}\n"));
     s.push_str("\nend RotoV.Gen.C14Emit\n");
+    Ok(s)
+}
+
+// ------------------------------------------------------------------ c14read
+
+fn stmt_str(st: &syn::Stmt) -> String {
+    norm(st).chars().take(160).collect()
+}
+
+/// the statements of an arm body (a block, or a single expression)
+fn arm_stmts(arm: &syn::Arm) -> Vec<syn::Stmt> {
+    match &*arm.body {
+        syn::Expr::Block(b) => b.block.stmts.clone(),
+        e => vec![syn::Stmt::Expr(e.clone(), None)],
+    }
+}
+
+fn is_verif_cfg(attrs: &[syn::Attribute]) -> bool {
+    attrs.iter().any(|a| norm(a).contains("verif-hooks"))
+}
+
+/// `Lowerer::path_value`, arm `ValueKind::Constant`
+fn mir_read(file: &syn::File) -> Result<(Vec<&'static str>, Vec<&'static str>), String> {
+    let f = find::func(file, "path_value", Some("Lowerer"))?;
+    // the bindings the arm may use: the destructured argument and the converted root type
+    let ms = find::matches_on(&f.block, "kind");
+    if ms.len() != 1 {
+        return Err(format!("path_value: {} `match kind` expressions", ms.len()));
+    }
+    let arm = find::arm_for(&ms[0], "Constant")?;
+    if arm.guard.is_some() {
+        return Err("path_value: guarded `ValueKind::Constant` arm".into());
+    }
+    const READ: &str = "Value::Constant(*name,root_ty)";
+    let mut no_fields: Option<Vec<&'static str>> = None;
+    let mut fields: Vec<&'static str> = vec![];
+    let mut temp: Option<String> = None;
+    let stmts = arm_stmts(arm);
+    let n = stmts.len();
+    for (i, st) in stmts.iter().enumerate() {
+        match st {
+            syn::Stmt::Local(l) if is_verif_cfg(&l.attrs) => {}
+            // `if fields.is_empty() { return Value::Constant(*name, root_ty); }`
+            syn::Stmt::Expr(syn::Expr::If(ife), _) if norm(&ife.cond) == "fields.is_empty()" => {
+                if no_fields.is_some() || !fields.is_empty() || ife.else_branch.is_some() {
+                    return Err(format!("path_value: unrecognised placement of `{}`", stmt_str(st)));
+                }
+                let mut acts = vec![];
+                for s in &ife.then_branch.stmts {
+                    let e = match s {
+                        syn::Stmt::Expr(syn::Expr::Return(r), _) => r.expr.as_deref(),
+                        syn::Stmt::Expr(e, None) => Some(e),
+                        _ => None,
+                    };
+                    match e {
+                        Some(e) if norm(e) == READ => acts.push("yieldConstant"),
+                        _ => return Err(format!("path_value, constant without fields: unrecognised statement `{}`", stmt_str(s))),
+                    }
+                }
+                no_fields = Some(acts);
+            }
+            // `let var = self.assign_to_var(Value::Constant(*name, root_ty), root_ty);`
+            syn::Stmt::Local(l) => {
+                let name = match &l.pat {
+                    syn::Pat::Ident(p) if p.mutability.is_none() => p.ident.to_string(),
+                    p => return Err(format!("path_value: unrecognised binding `{}`", norm(p))),
+                };
+                let init = norm(&l.init.as_ref().ok_or("path_value: binding without initialiser")?.expr);
+                if init == format!("self.assign_to_var({READ},root_ty)") {
+                    if temp.is_some() {
+                        return Err("path_value: the constant is copied into more than one temporary".into());
+                    }
+                    temp = Some(name);
+                    fields.push("tempFromConstant");
+                } else if init.starts_with("fields.iter().map(") && init.ends_with(".collect()") && !init.contains("self.") {
+                    // the projection: a pure function of the field list
+                } else {
+                    return Err(format!("path_value, arm ValueKind::Constant: unrecognised statement `{}`", stmt_str(st)));
+                }
+            }
+            // tail: `Value::Clone(Place { var, root_ty, projection })`
+            syn::Stmt::Expr(e, None) if i + 1 == n => {
+                let s = norm(e);
+                let var = temp.clone().ok_or("path_value: the arm yields a value before copying the constant")?;
+                let ok = s.starts_with("Value::Clone(Place{")
+                    && (s.contains(&format!("{{{var},")) || s.contains(&format!("var:{var},")))
+                    && !s.contains("self.");
+                if !ok {
+                    return Err(format!("path_value, arm ValueKind::Constant: unrecognised result `{}`", stmt_str(st)));
+                }
+                fields.push("yieldCloneOfTemp");
+            }
+            other => {
+                return Err(format!("path_value, arm ValueKind::Constant: unrecognised statement `{}`", stmt_str(other)));
+            }
+        }
+    }
+    let no_fields = no_fields.ok_or("path_value: no `if fields.is_empty()` case in the ValueKind::Constant arm")?;
+    Ok((no_fields, fields))
+}
+
+/// `Lowerer::assign` (LIR), arm `mir::Value::Constant(name, ty)`
+fn lir_read(file: &syn::File) -> Result<Vec<&'static str>, String> {
+    let f = find::func(file, "assign", Some("Lowerer"))?;
+    let ms = find::matches_on(&f.block, "value");
+    if ms.len() != 1 {
+        return Err(format!("lir assign: {} `match value` expressions", ms.len()));
+    }
+    let arm = find::arm_for(&ms[0], "Constant")?;
+    if norm(&arm.pat) != "mir::Value::Constant(name,ty)" || arm.guard.is_some() {
+        return Err(format!("lir assign: unrecognised pattern `{}`", norm(&arm.pat)));
+    }
+    let mut acts = vec![];
+    let mut ptr: Option<String> = None;
+    for st in &arm_stmts(arm) {
+        let s = norm(st);
+        match st {
+            syn::Stmt::Local(l) if is_verif_cfg(&l.attrs) => {}
+            syn::Stmt::Local(l) if norm(&l.init.as_ref().map(|i| i.expr.clone()).ok_or("lir assign: binding without initialiser")?) == "self.new_tmp(IrType::Pointer)" => {
+                ptr = Some(norm(&l.pat));
+                acts.push("freshPointer");
+            }
+            syn::Stmt::Expr(syn::Expr::MethodCall(_), Some(_)) if ptr.as_ref().is_some_and(|p| s == format!("self.emit_constant_address({p}.clone(),name);")) => {
+                acts.push("constantAddress");
+            }
+            syn::Stmt::Expr(syn::Expr::If(_), _)
+                if ptr.as_ref().is_some_and(|p| {
+                    s == format!("ifletSome(to)=to{{self.call_clone_of(to,Location::Pointer{{base:{p},offset:0,}},ty,);}}")
+                        || s == format!("ifletSome(to)=to{{self.call_clone_of(to,Location::Pointer{{base:{p},offset:0}},ty);}}")
+                }) =>
+            {
+                acts.push("cloneFromPointer");
+            }
+            syn::Stmt::Expr(syn::Expr::Return(r), _) if r.expr.is_none() => {}
+            other => return Err(format!("lir assign, arm mir::Value::Constant: unrecognised statement `{}`", stmt_str(other))),
+        }
+    }
+    // `emit_constant_address(to, name)` = `self.emit(Instruction::ConstantAddress { to, name })`
+    let e = find::func(file, "emit_constant_address", Some("Lowerer"))?;
+    let body: Vec<String> = e.block.stmts.iter().map(|s| norm(s)).collect();
+    if body != ["self.emit(Instruction::ConstantAddress{to,name})"] {
+        return Err(format!("emit_constant_address: unrecognised body `{}`", body.join(" ")));
+    }
+    Ok(acts)
+}
+
+/// code generator, arm `lir::Instruction::ConstantAddress { to, name }`
+fn cg_addr(file: &syn::File) -> Result<Vec<&'static str>, String> {
+    struct Arms(Vec<syn::Arm>);
+    impl<'ast> Visit<'ast> for Arms {
+        fn visit_arm(&mut self, a: &'ast syn::Arm) {
+            if norm(&a.pat).starts_with("lir::Instruction::ConstantAddress{") {
+                self.0.push(a.clone());
+            }
+            syn::visit::visit_arm(self, a);
+        }
+    }
+    let mut a = Arms(vec![]);
+    a.visit_file(file);
+    if a.0.len() != 1 {
+        return Err(format!("codegen: {} arms for lir::Instruction::ConstantAddress", a.0.len()));
+    }
+    let arm = &a.0[0];
+    if norm(&arm.pat) != "lir::Instruction::ConstantAddress{to,name}" || arm.guard.is_some() {
+        return Err(format!("codegen: unrecognised pattern `{}`", norm(&arm.pat)));
+    }
+    let mut acts = vec![];
+    let mut seen_ptr = false;
+    for st in &arm_stmts(arm) {
+        match st {
+            syn::Stmt::Local(l) if is_verif_cfg(&l.attrs) => {}
+            syn::Stmt::Local(l) => {
+                let name = norm(&l.pat);
+                let init = &l.init.as_ref().ok_or("codegen ConstantAddress: binding without initialiser")?.expr;
+                let s = norm(init);
+                match name.as_str() {
+                    "ptr" => {
+                        // if let Some(p) = runtime_constants.get(name) { p.ptr() } else if let Some(c) = roto_constants.get(name) { c.ptr } else { ice!(…) }
+                        let mut cur: &syn::Expr = init;
+                        loop {
+                            match cur {
+                                syn::Expr::If(ife) => {
+                                    let c = norm(&ife.cond);
+                                    let then = ife.then_branch.stmts.iter().map(|s| norm(s)).collect::<Vec<_>>().join(" ");
+                                    let bound = c.strip_prefix("letSome(").and_then(|r| r.split_once(")=")).map(|(b, r)| (b.to_string(), r.to_string()));
+                                    match bound {
+                                        Some((b, src)) if src == "self.module.runtime_constants.get(name)" && then == format!("{b}.ptr()") => acts.push("runtimeConstant"),
+                                        Some((b, src)) if src == "self.module.roto_constants.get(name)" && then == format!("{b}.ptr") => acts.push("storedConstant"),
+                                        _ => return Err(format!("codegen ConstantAddress: unrecognised source of the pointer `{c}` → `{then}`")),
+                                    }
+                                    match &ife.else_branch {
+                                        Some((_, e)) => cur = e,
+                                        None => return Err("codegen ConstantAddress: pointer lookup without a final else".into()),
+                                    }
+                                }
+                                syn::Expr::Block(b) => {
+                                    let t = b.block.stmts.iter().map(|s| norm(s)).collect::<Vec<_>>().join(" ");
+                                    if t.starts_with("ice!(") {
+                                        acts.push("ice");
+                                        break;
+                                    }
+                                    return Err(format!("codegen ConstantAddress: unrecognised fallback `{t}`"));
+                                }
+                                e => return Err(format!("codegen ConstantAddress: unrecognised pointer expression `{}`", norm(e))),
+                            }
+                        }
+                        seen_ptr = true;
+                    }
+                    "ty" if s == "self.module.cranelift_type(&IrType::Pointer)" => {}
+                    "val" if seen_ptr && s == "self.ins().iconst(ty,ptrasusizeasi64)" => {}
+                    "to" if s == "self.variable(to,ty)" => {}
+                    _ => return Err(format!("codegen ConstantAddress: unrecognised statement `{}`", stmt_str(st))),
+                }
+            }
+            syn::Stmt::Expr(e, Some(_)) if norm(e) == "self.def(to,val)" => {}
+            other => return Err(format!("codegen ConstantAddress: unrecognised statement `{}`", stmt_str(other))),
+        }
+    }
+    Ok(acts)
+}
+
+fn c14read(repo: &Path) -> Result<String, String> {
+    let ml = find::parse(repo, "src/mir/lower.rs")?;
+    let ll = find::parse(repo, "src/lir/lower.rs")?;
+    let cg = find::parse(repo, "src/codegen/mod.rs")?;
+    let (no_fields, fields) = mir_read(&ml)?;
+    let lir = lir_read(&ll)?;
+    let addr = cg_addr(&cg)?;
+    let mut s = String::new();
+    s.push_str("/- GENERATED by /verif/extract (target c14read) from src/mir/lower.rs, src/lir/lower.rs, src/codegen/mod.rs — do not edit. -/\nimport RotoV.Model.TarjanRead\nnamespace RotoV.Gen.C14Read\nopen RotoV.Tarjan\n\n");
+    s.push_str("/-- `Lowerer::path_value`, arm `ValueKind::Constant`, case `fields.is_empty()` -/\n");
+    s.push_str(&format!("def mirReadNoFields : List MirReadAct := {}\n\n", lean_list(&no_fields)));
+    s.push_str("/-- … the rest of the arm (a path with fields) -/\n");
+    s.push_str(&format!("def mirReadFields : List MirReadAct := {}\n\n", lean_list(&fields)));
+    s.push_str("/-- `Lowerer::assign` (LIR), arm `mir::Value::Constant(name, ty)`; `emit_constant_address(to, name)` is `Instruction::ConstantAddress { to, name }` -/\n");
+    s.push_str(&format!("def lirConstantAssign : List LirReadAct := {}\n\n", lean_list(&lir)));
+    s.push_str("/-- code generator, arm `lir::Instruction::ConstantAddress { to, name }`: where the pointer comes from, in order -/\n");
+    s.push_str(&format!("def cgConstantAddress : List CgAddrAct := {}\n", lean_list(&addr)));
+    s.push_str("\nend RotoV.Gen.C14Read\n");
     Ok(s)
 }
